@@ -1,6 +1,7 @@
 SPECIFICATION Spec
 CONSTANTS MaxLen = 5
 EmitMod = 1
+Prefix <- PrefixNone
 Emit = TRUE
 Vocab <- VocabQuick
 INVARIANTS TypeOK DesignRefinesInfoset EmitCase
